@@ -72,6 +72,7 @@ type Expr struct {
 	N     int
 	B     bool
 	S     string // name / string literal / callee / operator
+	XS    string // calls: the name written in the XGo source when it differs (overloaded name; S is the resolved candidate)
 	T, T2 *Ty
 	Args  []*Expr
 	KVs   [][2]*Expr
@@ -219,6 +220,13 @@ func xs(es []*Expr, f func(*Expr) string) string {
 // gofmt spacing rules cannot differ.
 func (e *Expr) CallCode() string { return e.S + "(" + xs(e.Args, (*Expr).XGo) + ")" }
 
+func (e *Expr) srcName() string {
+	if e.XS != "" {
+		return e.XS
+	}
+	return e.S
+}
+
 func (e *Expr) XGo() string {
 	switch e.K {
 	case "int":
@@ -252,9 +260,9 @@ func (e *Expr) XGo() string {
 	case "len":
 		return "len(" + e.Args[0].XGo() + ")"
 	case "call":
-		return e.S + "(" + xs(e.Args, (*Expr).XGo) + ")"
+		return e.srcName() + "(" + xs(e.Args, (*Expr).XGo) + ")"
 	case "cmdCall":
-		return e.S + " " + xs(e.Args, (*Expr).XGo)
+		return e.srcName() + " " + xs(e.Args, (*Expr).XGo)
 	case "probe":
 		return fmt.Sprintf("probe(%d, %s)", e.N, e.Args[0].XGo())
 	case "listCompr":
